@@ -260,18 +260,18 @@ func (c *Ctx) Finish(verifDir string, explanation string, assumptions []string, 
 		"distinct_nontrivial": len(distinct),
 		"rule": "every obligation is one rule instance matched on a construct of /repo's current source " +
 			"(key = rule:construct); distinct = distinct keys; nothing is sampled, each rule enumerates all of its sites",
-		"samples":            samples,
-		"all_obligations":    c.Obs,
+		"samples":             samples,
+		"all_obligations":     c.Obs,
 		"obligations_by_rule": ruleNames,
-		"info_items":         info,
-		"exhaustive":         true,
-		"checker_cmd":        fmt.Sprintf("/verif/bin/mrocheck -property %s -tier %s", c.Property, c.Tier),
-		"trusted_base":       []string{"go/types", "golang.org/x/tools/go/ssa v0.29.0", "golang.org/x/tools/go/callgraph/vta", "the rule tables in /verif/checker/props"},
-		"packages":           len(c.P.Pkgs),
-		"functions_analysed": nfun,
-		"instance_counts":    c.Stats,
-		"known_findings":     knownHit,
-		"notes":              c.Notes,
+		"info_items":          info,
+		"exhaustive":          true,
+		"checker_cmd":         fmt.Sprintf("/verif/bin/mrocheck -property %s -tier %s", c.Property, c.Tier),
+		"trusted_base":        []string{"go/types", "golang.org/x/tools/go/ssa v0.29.0", "golang.org/x/tools/go/callgraph/vta", "the rule tables in /verif/checker/props"},
+		"packages":            len(c.P.Pkgs),
+		"functions_analysed":  nfun,
+		"instance_counts":     c.Stats,
+		"known_findings":      knownHit,
+		"notes":               c.Notes,
 	}
 	for k, v := range extra {
 		cov[k] = v
